@@ -12,7 +12,8 @@ use crate::ast::{
 };
 use crate::formatting::buffer::Buffer;
 use crate::formatting::VHDLFormatter;
-use crate::HasTokenSpan;
+use crate::syntax::Kind;
+use crate::{HasTokenSpan, TokenAccess};
 use vhdl_lang::ast::{Allocator, QualifiedExpression};
 
 impl VHDLFormatter<'_> {
@@ -31,7 +32,14 @@ impl VHDLFormatter<'_> {
                 self.format_token_id(op.token, buffer);
                 match op.item.item {
                     Operator::Minus | Operator::Plus | Operator::QueQue => {
-                        // Leave as unary operator without whitespace
+                        // Leave as unary operator without whitespace.
+                        // The exception is a minus in front of an operand that starts
+                        // with a minus itself: `- -a` must not become the comment `--a`
+                        if op.item.item == Operator::Minus
+                            && self.tokens.index(rhs.span.start_token).kind == Kind::Minus
+                        {
+                            buffer.push_whitespace();
+                        }
                     }
                     _ => buffer.push_whitespace(),
                 }
@@ -243,6 +251,15 @@ mod test {
         check_expression("+B");
         check_expression("-2");
         check_expression("not A")
+    }
+
+    #[test]
+    fn nested_unary_minus_is_not_joined_to_a_comment() {
+        check_expression("- -1");
+        check_expression("a * (- -b)");
+        check_expression("- -(-a)");
+        check_expression("+-1");
+        check_expression("-+1");
     }
 
     #[test]
